@@ -207,7 +207,11 @@ class Interp:
         for n, v in zip(names, pos):
             env[n] = v
         if len(pos) > len(names):
-            raise TypeViolation(f"{f.short} called with too many arguments")
+            if a.vararg is None:
+                raise TypeViolation(f"{f.short} called with too many arguments")
+            env[a.vararg.arg] = VTuple(tuple(pos[len(names):]))
+        elif a.vararg is not None:
+            env[a.vararg.arg] = VTuple(())
         for k, v in kwargs.items():
             env[k] = v
         # defaults
@@ -361,6 +365,14 @@ class Interp:
             return
         if isinstance(t, ast.Subscript):
             base = self.ev(t.value, fr)
+            if isinstance(base, VList) and getattr(base, "prealloc", None) is not None:
+                idx = self.ev(t.slice, fr)
+                ctx = self.class_ctx[-1] if self.class_ctx else None
+                if ctx is not None and isinstance(idx, VInt) and getattr(ctx, "n", None) is not None and self.facts.eq(idx.p, ctx.k) \
+                        and self.facts.eq(ctx.n, base.prealloc):
+                    ctx.appended.setdefault(id(base), []).append(v)      # the slot of this position: the same as appending in order
+                    return
+                raise Unmodelled("store into a preallocated list at a position other than the loop's own")
             if isinstance(base, VList):
                 idx = self.ev(t.slice, fr)
                 k = self.concrete_index(idx, len(base.items))
@@ -435,7 +447,8 @@ class Interp:
             parts = [self.iter_concrete(p) for p in v.parts]
             return [VTuple(tuple(x)) for x in zip(*parts)]
         if isinstance(v, VEnumerate):
-            return [VTuple((VInt(P.const(i)), x)) for i, x in enumerate(self.iter_concrete(v.inner))]
+            st = getattr(v, "start", ZERO)
+            return [VTuple((VInt(self.facts.norm(st + P.const(i))), x)) for i, x in enumerate(self.iter_concrete(v.inner))]
         if isinstance(v, VSeq):
             n = self.facts.norm(v.length).const_value()
             if n is not None:
@@ -477,7 +490,8 @@ class Interp:
             s = self.sym_length(v.inner)
             if s is None:
                 return None
-            return s[0], (lambda k: VTuple((VInt(self.facts.norm(P.of(k))), s[1](k))))
+            st = getattr(v, "start", ZERO)
+            return s[0], (lambda k: VTuple((VInt(self.facts.norm(P.of(k) + st)), s[1](k))))
         if isinstance(v, VSymList):
             raise Unmodelled("iteration over a list built in a symbolic loop")
         return None
@@ -581,6 +595,7 @@ class Interp:
                     self.facts.lb[iv] = 1
                     _install_ge(self.facts, n - 2 - P.atom(iv), 0)
                 ctx = ClassCtx(label, k)
+                ctx.n = n if getattr(getter, "from_zero", True) else None
                 self.class_ctx.append(ctx)
                 self.trail = trail
                 env_copy = dict(fr.env)
@@ -860,6 +875,11 @@ class Interp:
             c = self.facts.norm(cnt.p).const_value()
             if c is not None:
                 return VList(list(lst.items) * int(c))
+            if len(lst.items) == 1 and isinstance(lst.items[0], VNone):
+                # [None] * d: a list to be filled position by position (`X[i] = ...` inside `for i in range(d)`)
+                v = VList([])
+                v.prealloc = self.facts.norm(cnt.p)
+                return v
             if len(lst.items) == 1:
                 x = lst.items[0]
                 return VSeq("rep", cnt.p, lambda k, x=x: x)
@@ -890,6 +910,9 @@ class Interp:
                 return VScalar(sl * sr)
             if isinstance(op, ast.Div):
                 return VScalar(sl * sr.inv())
+            if isinstance(op, ast.Pow) and isinstance(r, VFloat) and r.x == 0.5 and isinstance(l, (VInt, VFloat, VScalar)):
+                from .torchmodel import _sqrt_scalar
+                return _sqrt_scalar(l)      # x ** 0.5
             if isinstance(op, ast.Pow) and isinstance(r, VInt) and r.p.const_value() is not None and 0 <= int(r.p.const_value()) <= 4:
                 out = Coef()
                 for _ in range(int(r.p.const_value())):
@@ -988,6 +1011,13 @@ class Interp:
             if isinstance(l, VOpaque) and isinstance(r, VOpaque):
                 eq = l.tag == r.tag
                 return VBool(eq if isinstance(op, ast.Is) else not eq)
+            # `x is True` for a value that is a bool: the bool singletons are compared by value
+            for a, b in ((l, r), (r, l)):
+                if isinstance(b, VBool) and b.v is not None and isinstance(a, VBool):
+                    t = self.truth(a)
+                    return VBool((t == b.v) if isinstance(op, ast.Is) else (t != b.v))
+                if isinstance(b, VBool) and b.v is not None and isinstance(a, (VInt, VFloat, VStr, VList, VTuple, VTensor, VTT)):
+                    return VBool(not isinstance(op, ast.Is))
             raise Unmodelled("identity comparison")
         if isinstance(op, (ast.In, ast.NotIn)):
             return self.membership(op, l, r, node)
@@ -1259,7 +1289,12 @@ class Interp:
         return call(self, e, fr)
 
     def ev_Lambda(self, e, fr):
-        return VOpaque("lambda")
+        # a lambda is a closure whose body is one return
+        fn = ast.FunctionDef(name="<lambda>", args=e.args, body=[ast.copy_location(ast.Return(value=e.body), e)], decorator_list=[], returns=None, type_comment=None,
+                             type_params=[])
+        ast.copy_location(fn, e)
+        ast.fix_missing_locations(fn)
+        return VClosure(Func(f"{fr.f.qual}.<locals>.<lambda>", fr.f.module, fn, None), fr.env)
 
     def ev_Starred(self, e, fr):
         raise Unmodelled("starred expression")
